@@ -20,7 +20,7 @@ use crate::{
     },
 };
 use roxmltree::Node;
-use std::{collections::HashMap, fmt::Display, io, sync::atomic::AtomicBool};
+use std::{cell::RefCell, collections::HashMap, fmt::Display, io, sync::atomic::AtomicBool};
 
 pub const WELL_KNOWN_NAMESPACES: &[&str] = &[
     "http://www.w3.org/XML/1998/namespace",
@@ -62,6 +62,10 @@ impl FileContent {
 }
 
 type Schemalocation = String;
+
+/// What each file that has been read contributed: a file that is imported along a second path is not read again,
+/// the importing file refers to these components.
+type ReadFiles = RefCell<HashMap<Schemalocation, RustDocument>>;
 
 /// The `Files` struct is used to hold the XML content
 pub struct Files {
@@ -137,6 +141,10 @@ impl XmlReader {
     }
 
     fn read_xml_internal(file: &FileContent, file_name: &str, files: &Files) -> WriterResult<RustDocument> {
+        Self::read_file(file, file_name, files, &ReadFiles::default())
+    }
+
+    fn read_file(file: &FileContent, file_name: &str, files: &Files, read_files: &ReadFiles) -> WriterResult<RustDocument> {
         if file.processed.load(std::sync::atomic::Ordering::SeqCst) {
             let rust_doc = RustDocument::empty();
             return Ok(rust_doc);
@@ -151,13 +159,16 @@ impl XmlReader {
         file.processed.store(true, std::sync::atomic::Ordering::SeqCst);
 
         for child in doc.root().children() {
-            Self::read(child, files, &mut rust_doc)?;
+            Self::read(child, files, &mut rust_doc, read_files)?;
         }
 
+        read_files
+            .borrow_mut()
+            .insert(file_name.to_string(), rust_doc.shared_components());
         Ok(rust_doc)
     }
 
-    fn read<'n>(node: Node<'n, 'n>, files: &Files, doc: &mut RustDocument) -> WriterResult<()> {
+    fn read<'n>(node: Node<'n, 'n>, files: &Files, doc: &mut RustDocument, read_files: &ReadFiles) -> WriterResult<()> {
         if !node.is_element() {
             return Ok(());
         }
@@ -167,20 +178,25 @@ impl XmlReader {
         }
 
         match node.tag_name().name() {
-            "definitions" => Self::read_wsdl(node, files, doc)?,
-            "schema" => Self::read_xsd(node, files, doc)?,
+            "definitions" => Self::read_wsdl(node, files, doc, read_files)?,
+            "schema" => Self::read_xsd(node, files, doc, read_files)?,
             _ => return Ok(()),
         }
 
         Ok(())
     }
 
-    fn read_wsdl<'n>(node: Node<'n, 'n>, files: &Files, doc: &mut RustDocument) -> WriterResult<()> {
+    fn read_wsdl<'n>(
+        node: Node<'n, 'n>,
+        files: &Files,
+        doc: &mut RustDocument,
+        read_files: &ReadFiles,
+    ) -> WriterResult<()> {
         for child in node.children() {
             let node_name = child.tag_name().name();
             // first read the types as if it were an XSD
             if node_name == "types" {
-                Self::read_soap_types_schema(files, doc, child)?;
+                Self::read_soap_types_schema(files, doc, child, read_files)?;
             }
 
             // read soap messages
@@ -215,19 +231,25 @@ impl XmlReader {
         files: &Files,
         doc: &mut RustDocument,
         child: Node<'n, 'n>,
+        read_files: &ReadFiles,
     ) -> Result<(), WriterError> {
         let schema = child
             .children()
             .find(|n| n.tag_name().name() == "schema")
             .ok_or(WriterError::SchemaNotFound)?;
-        Self::read_xsd(schema, files, doc)?;
+        Self::read_xsd(schema, files, doc, read_files)?;
         Ok(())
     }
 
-    fn read_xsd<'n>(node: Node<'n, 'n>, files: &Files, doc: &mut RustDocument) -> WriterResult<()> {
+    fn read_xsd<'n>(
+        node: Node<'n, 'n>,
+        files: &Files,
+        doc: &mut RustDocument,
+        read_files: &ReadFiles,
+    ) -> WriterResult<()> {
         for child in node.children() {
             if child.tag_name().name() == "import" {
-                doc.extend(Self::process_import(child, files)?);
+                doc.extend(Self::process_import(child, files, read_files)?);
                 continue;
             }
 
@@ -239,7 +261,7 @@ impl XmlReader {
         Ok(())
     }
 
-    fn process_import(node: Node, files: &Files) -> WriterResult<RustDocument> {
+    fn process_import(node: Node, files: &Files, read_files: &ReadFiles) -> WriterResult<RustDocument> {
         let namespace = node.attribute("namespace").ok_or(WriterError::NamespaceMissing)?;
 
         if WELL_KNOWN_NAMESPACES.contains(&namespace) {
@@ -256,10 +278,16 @@ impl XmlReader {
             .ok_or_else(|| WriterError::ImportNotFound(schema_location.to_string()))?;
 
         if file.processed.load(std::sync::atomic::Ordering::Relaxed) {
-            return Ok(RustDocument::empty());
+            // read already through another import: its components are shared, not read again
+            // (there are none yet while the file is still being read, i.e. on an import cycle)
+            let shared = read_files
+                .borrow()
+                .get(schema_location)
+                .map(RustDocument::shared_components);
+            return Ok(shared.unwrap_or_else(RustDocument::empty));
         }
 
-        let rust_doc = Self::read_xml_internal(file, schema_location, files)?;
+        let rust_doc = Self::read_file(file, schema_location, files, read_files)?;
         Ok(rust_doc)
     }
 }
